@@ -265,9 +265,9 @@ func (x *exec) concPass(entries []entry, lines [][]byte) {
 				snap func() string
 				want string
 				li   int
+				ri   int // index of the root the result lives in
 			}
 			last := make([][]kept, len(entries))
-			cnt := make([]int, len(entries))
 			n := int64(0)
 			for round := 0; round < concRounds; round++ {
 				for k := range lines {
@@ -275,10 +275,22 @@ func (x *exec) concPass(entries []entry, lines [][]byte) {
 					for j := range entries {
 						e := &entries[j]
 						var root *insaneJSON.Root
+						ri := 0
 						if e.usesRoot {
-							root = roots[j][cnt[j]%3] // the two results kept below live in the other two roots
+							// a root that holds none of the (at most two) results kept below
+							for ri = 0; ri < 3; ri++ {
+								used := false
+								for _, o := range last[j] {
+									if o.ri == ri {
+										used = true
+									}
+								}
+								if !used {
+									break
+								}
+							}
+							root = roots[j][ri]
 						}
-						cnt[j]++
 						n++
 						snap, res := one(e, root, lines[li])
 						if res != ref[li][j] && res != "panic" && ref[li][j] != "panic" {
@@ -301,7 +313,7 @@ func (x *exec) concPass(entries []entry, lines [][]byte) {
 							}
 						}
 						if snap != nil {
-							last[j] = append(last[j], kept{snap, strings.TrimPrefix(res, "ok:"), li})
+							last[j] = append(last[j], kept{snap, strings.TrimPrefix(res, "ok:"), li, ri})
 							if len(last[j]) > 2 {
 								last[j] = last[j][1:]
 							}
